@@ -92,6 +92,12 @@ var special = []string{
 	`permit (principal, action, resource) when { context.b.a == [principal, User::"a"] };`,
 	`permit (principal, action, resource) when { [context.a, 1] == [1] };`,
 	`permit (principal, action, resource) when { ip(context.a).isLoopback() };`,
+	`permit (principal, action, resource) when { context has a && context has b && context.a == context.b };`,
+	`forbid (principal, action, resource) when { context.b has a && context.b.a like "a*" };`,
+	`permit (principal, action, resource) when { (if context.a then 1 else "x") + 1 == 2 };`,
+	`permit (principal, action, resource) when { principal.a == context.a || resource in context.b };`,
+	`permit (principal is User, action, resource) unless { context.a.contains(principal) };`,
+	`forbid (principal, action, resource in Group::"a") when { context.name == principal.name };`,
 	`permit (principal, action, resource) when { decimal(context.a).lessThan(decimal("2.0")) || context.b == "1" };`,
 }
 
@@ -229,6 +235,12 @@ func genScenario(r *core.Run) *scenario {
 		cm[types.String(gen.Attrs[r.T.Intn(len(gen.Attrs))])] = leaf(2)
 	}
 	req.Context = types.NewRecord(cm)
+	wholeCtx := r.T.Intn(10) == 9
+	if wholeCtx {
+		// the whole context is one variable whose values are records
+		req.Context = batch.Variable("x")
+	}
+	pool["x"] = true
 	found := map[types.String]bool{}
 	varsIn(req.Principal, pool, found)
 	varsIn(req.Action, pool, found)
@@ -248,6 +260,10 @@ func genScenario(r *core.Run) *scenario {
 		l := listLen()
 		var vals []types.Value
 		switch n {
+		case "x":
+			for i := 0; i < l; i++ {
+				vals = append(vals, g.Record(1))
+			}
 		case "p", "r":
 			vals = uidList(l, false)
 		case "a":
